@@ -294,7 +294,9 @@ func (s Set) matchVersion(v *Version, includePrerelease bool) bool {
 			// dev (it doesn't seem to matter which is which).
 			if !pre && (v.IsPrerelease() || v.isPyPIDev()) {
 				anyPre := span.min.IsPrerelease() || span.max.IsPrerelease()
-				anyDev := span.min.isPyPIDev() || span.max.isPyPIDev()
+				// The lower bound of "<V" is the dev release 0.0.0.dev0, which
+				// the user did not write and which enables nothing.
+				anyDev := (span.min.isPyPIDev() && !span.min.synthetic) || span.max.isPyPIDev()
 				if !(anyPre || anyDev) {
 					continue
 				}
